@@ -36,7 +36,9 @@ PROBES = ["rules_total", "cat_accessible", "cat_tuned", "cat_failed", "all_three
           "fallback_used", "important_present", "prop_case_present", "alpha_text_tuned", "api_calls", "dir_invocation",
           "mode0", "mode1", "mode2", "report_present", "subprocess_crosscheck", "multi_file_runs", "inplace_model_evaluated", "inplace_model_matched", "real_interpreter_runs", "non_utf8_locale_runs", "second_invocation_in_process_runs", "invoked_from_non_main_thread", "directory_named_like_a_stylesheet", "long_var_chain", "already_processed_with_other_settings", "longer_stale_output_present"]
 
-C08_FEATURES = tuple(f for f in gen.ALL_FEATURES if f not in gen.C09_ONLY)
+# (unicode-seps: U+2028, U+0085, VT ... inside strings, comments and selectors are ordinary characters to a CSS tokenizer -
+# and to the reference reader, which is tinycss2 - so the count law and the written colours are judged there as well)
+C08_FEATURES = tuple(f for f in gen.ALL_FEATURES if f not in gen.C09_ONLY or f == "unicode-seps")
 
 
 def _settings(rng):
